@@ -726,12 +726,24 @@ def check_escape(ctx, o):
 
 
 # ------------------------------------------------------------------------------------------------------- counting
+def _infeasible(p: Path, loop) -> bool:
+    """the path requires the loop variable (an element of a task list) to be None"""
+    if not (isinstance(loop, ast.For) and isinstance(loop.target, ast.Name)):
+        return False
+    v = loop.target.id
+    for t, pol in p.conds:
+        for a, ap in facts.split_conj(t, pol):
+            if (match(f"{v} is None", a) and ap) or (match(f"{v} is not None", a) and not ap):
+                return True
+    return False
+
+
 def per_iteration(o, f: Func, loop, atoms: Dict[int, str], label: str, what: str, others=()) -> bool:
     """every completed iteration of `loop` meets exactly one `label` event (and none of `others`)"""
     ok = True
     hdr = f"for {src(loop.target)} in {src(loop.iter)}" if isinstance(loop, ast.For) else 'while ..'
     for p in paths(loop.body, atoms):
-        if p.exit == 'raise':
+        if p.exit == 'raise' or _infeasible(p, loop):
             continue
         if p.exit in ('break', 'return'):
             o.refute(f, loop, f"{hdr}: {p.exit}", f"the loop `{hdr}` is left by `{p.exit}` ({p.cond_text()}): the remaining "
@@ -938,9 +950,14 @@ def check_partition(ctx, o, G: Gantt, M: str, reader: ast.For) -> bool:
     return ok
 
 
+def _bad(o) -> int:
+    return len(o.refuted) + len(o.unknown)
+
+
 def gantt_once(ctx, o):
     G = Gantt(ctx)
     f = G.f
+    n0 = _bad(o)
     if not G.lines:
         o.refute(f, f.node, '__src: no task line', "no text carrying task start/end dates is ever appended to the Gantt source")
         return
@@ -1029,7 +1046,7 @@ def gantt_once(ctx, o):
             o.refute(f, L, L.iter, f"task lines are emitted for `{src(it)[:70]}`, which is not every task of self.{G.w}.tasks")
         else:
             o.undecided(f, L, L.iter, f"cannot tell whether `{src(it)[:70]}` enumerates every task exactly once")
-    if o.refuted or o.unknown:
+    if _bad(o) > n0:
         return
     atoms = {i: 'unit' for i in units}
     for e in G.lines:
@@ -1309,6 +1326,7 @@ class Edge:
 
 def check_network(ctx, o, osk):
     f = ctx.prog.func(qual(NET, '__src'))
+    n0 = _bad(o)
     w = wbs_attr(ctx, NET)
     acc = Acc(ctx, f)
     em = emissions(ctx, f, acc, lambda n: isinstance(n, ast.Constant) and isinstance(n.value, str) and '-->' in n.value)
@@ -1332,7 +1350,7 @@ def check_network(ctx, o, osk):
             o.undecided(f, ed.stmt, ed.stmt, "an edge line is emitted outside a loop over self.wbs.tasks")
             continue
         groups.setdefault(id(T), (T, []))[1].append((ed, C[C.index(T) + 1:]))
-    if o.refuted or o.unknown:
+    if _bad(o) > n0:
         return
     for T, eds in groups.values():
         if not isinstance(T.target, ast.Name):
@@ -1466,7 +1484,7 @@ def check_network(ctx, o, osk):
             o.refute(f, T, f"task loop: {kind}", msg)
         if not problems:
             o.site(f, T, f"per task: exactly one Start edge iff no predecessors, else the dependency loop ({len(ps)} paths)")
-    if o.refuted or o.unknown:
+    if _bad(o) > n0:
         return
     if once_per_call(o, f, {id(T): 'unit' for T, _ in groups.values()}, 'unit', 'loop emitting the edges of every task'):
         o.site(f, f.node, "every path through __src runs the edge loop over self.wbs.tasks exactly once")
